@@ -373,6 +373,10 @@ class GetUnitDataFromExpr(Contract):
             s = e_str(e.term)
             it.assume(z3.Length(s) >= 1)        # sympy Symbols have non-empty names
             row = c.apply(it, {"symbol_str": s, "unit_symbol_lut": lut})
+            if getattr(lut, "positive_scales", False):
+                # table invariant supplied by the verified contract's precondition (every row of
+                # this table has a positive scale), instantiated at the row that was read
+                it.assume(to_real(row[0]) > 0)
             it.__dict__.setdefault("unit_data_results", []).append((e, row))
             return row
         if it.branch(it.fresh_bool("unit_data_unparsable")):
